@@ -117,6 +117,34 @@ func init() {
 		fr.e.sched.noTimers = true
 		return nil
 	})
+	// sync.Pool: a per-pool free list (the contract: Get returns any item that
+	// was Put and not yet handed out again, or New())
+	reg("(*sync.Pool).Put", func(fr *frame, args []Value) Value {
+		e := fr.e
+		key := fmt.Sprintf("syncpool%p", args[0].(*Value))
+		lst, _ := e.objs[key].([]Value)
+		if it, ok := args[1].(Iface); ok && it.t != nil {
+			e.objs[key] = append(lst, args[1])
+		}
+		return nil
+	})
+	reg("(*sync.Pool).Get", func(fr *frame, args []Value) Value {
+		e := fr.e
+		key := fmt.Sprintf("syncpool%p", args[0].(*Value))
+		lst, _ := e.objs[key].([]Value)
+		if len(lst) > 0 {
+			it := lst[len(lst)-1]
+			e.objs[key] = lst[:len(lst)-1]
+			return it
+		}
+		pool := (*fr.derefArg(args[0], "sync.Pool.Get")).(Struct)
+		pt := e.namedType("sync", "Pool")
+		newFn := *getField(pool, pt, "New")
+		if cl, ok := newFn.(*Closure); !ok || cl == nil {
+			return Iface{} // no New function: nil
+		}
+		return e.call(fr, 0, newFn, nil)
+	})
 	reg(rt+"NativeTimeout", func(fr *frame, args []Value) Value { return nil })
 	reg(rt+"TimersFireTogether", func(fr *frame, args []Value) Value {
 		fr.e.sched.timersTogether = fr.e.branch(args[0].(*Term))
